@@ -1,1 +1,2 @@
 import MatidProps.C19
+import MatidProps.C14
